@@ -18,7 +18,7 @@ RULE = ('Hypothesis state machines over one PairTable (ops: set single pair in e
         'in-place mutation, or a setUnset after a partial assignment; distinct = hash of (types, trace).')
 ASSUMPTIONS = ['ValueTable is not required to copy values (it never promises to); only PairTable isolation is judged',
                'values are lists, dicts, small ndarrays, numbers or strings (deep-copyable)']
-NAMES = ['A', 'B', 'C', 'poly', 'nano', 'AB']
+NAMES = ['A', 'B', 'C', 'poly', 'nano', 'AB', 'A B', 'A,B', '1', 'a', 'AA', 'B-A']
 
 
 def mkval(v):
